@@ -54,6 +54,7 @@ type Table struct {
 	bankT  types.Type
 	res    map[*ssa.Function]*term.Resolver
 	Unres  []string
+	bind  map[*ssa.Parameter]ssa.Value // helper parameters bound to the arguments of the call being resolved
 }
 
 var bankMutators = map[string]bool{
@@ -215,13 +216,30 @@ func constStr(v ssa.Value) (string, bool) {
 
 // bytesConst recognises KeyPrefix("const"), []byte("const") and []byte{}.
 func (t *Table) bytesConst(v ssa.Value) (string, bool) {
+	if p, ok := v.(*ssa.Parameter); ok && t.bind != nil {
+		if a, ok := t.bind[p]; ok {
+			return t.bytesConst(a)
+		}
+	}
 	switch x := v.(type) {
 	case *ssa.Call:
 		if sc := x.Call.StaticCallee(); sc != nil && sc.Name() == "KeyPrefix" && len(x.Call.Args) == 1 && t.P.IsModFunc(sc) {
-			return constStr(x.Call.Args[0])
+			a := x.Call.Args[0]
+			if p, ok := a.(*ssa.Parameter); ok && t.bind != nil {
+				if b, ok := t.bind[p]; ok {
+					a = b
+				}
+			}
+			return constStr(a)
 		}
 	case *ssa.Convert:
-		return constStr(x.X)
+		a := x.X
+		if p, ok := a.(*ssa.Parameter); ok && t.bind != nil {
+			if b, ok := t.bind[p]; ok {
+				a = b
+			}
+		}
+		return constStr(a)
 	case *ssa.Slice:
 		if al, ok := x.X.(*ssa.Alloc); ok {
 			if arr, ok := al.Type().Underlying().(*types.Pointer).Elem().Underlying().(*types.Array); ok && arr.Len() == 0 {
@@ -325,6 +343,24 @@ func (t *Table) resolveStore(f *ssa.Function, v ssa.Value, depth int) (mod, fiel
 				continue
 			}
 			m2, f2, p2, hp2 := t.resolveStore(h, ret.Results[0], depth+1)
+			if !hp2 && !c.Call.IsInvoke() {
+				// the helper takes (part of) the key prefix as a parameter: evaluate it with this call's arguments
+				if pc, ok := stripIface(ret.Results[0]).(*ssa.Call); ok && len(pc.Call.Args) == 2 {
+					if pn, _ := term.CalleeName(t.P, &pc.Call); pn == "cosmos/store/prefix.NewStore" {
+						old := t.bind
+						t.bind = map[*ssa.Parameter]ssa.Value{}
+						for i, q := range h.Params {
+							if i < len(c.Call.Args) {
+								t.bind[q] = c.Call.Args[i]
+							}
+						}
+						if s, ok := t.bytesConst(pc.Call.Args[1]); ok {
+							p2, hp2 = s, true
+						}
+						t.bind = old
+					}
+				}
+			}
 			if first {
 				mod, field, prefix, havePrefix = m2, f2, p2, hp2
 				first = false
@@ -338,6 +374,21 @@ func (t *Table) resolveStore(f *ssa.Function, v ssa.Value, depth int) (mod, fiel
 		mod, field = t.keyOwner(f, kc.Call.Args[1])
 	}
 	return
+}
+
+func stripIface(v ssa.Value) ssa.Value {
+	for i := 0; i < 4; i++ {
+		switch x := v.(type) {
+		case *ssa.MakeInterface:
+			v = x.X
+			continue
+		case *ssa.ChangeInterface:
+			v = x.X
+			continue
+		}
+		break
+	}
+	return v
 }
 
 // keyOwner: the store key value is a load of a keeper field, or a parameter.
